@@ -236,6 +236,8 @@ def oracle(case):
     if float((Ds * f).sum()) != float((s * adj.reshape(pdom.shape)).sum()):
         return ("<D s, f> != <s, D^H f>", dict(sig, what="adjointness"))
     aspect = case.get("aspect")
+    if aspect == "two-spaces":
+        return oracle_two_spaces(case)
     if aspect == "operator":
         return _oracle_operator(case, rng, dom, ps, space, pindex, nb, n, pre, post, sig)
     # analysis: |f|^2 = D s  =>  power_analyze(f) == s
@@ -285,6 +287,35 @@ def _oracle_operator(case, rng, dom, ps, space, pindex, nb, n, pre, post, sig):
     dg = s1[pindex].reshape((1, n, 1))
     if not np.array_equal(y.reshape(pre, n, post), x.reshape(pre, n, post) * dg):
         return ("create_power_operator is not the diagonal of the distributed spectrum", dict(sig, what="power-operator"))
+    return None
+
+
+def oracle_two_spaces(case):
+    """power_analyze over SEVERAL harmonic sub-spaces at once (spaces=None / a tuple): |f|^2 = D_1 D_2 s  =>  result == s"""
+    import nifty.cl as ift
+    rng = np.random.default_rng(case.get("oseed", 0))
+    h1, h2 = build_partner(case["partner"]), build_partner(case["partner2"])
+    try:
+        p1, p2 = ift.PowerSpace(h1), ift.PowerSpace(h2)        # natural binning (given bounds would apply to both spaces alike)
+    except ValueError:
+        return None
+    mid = [ift.RGSpace(n) for n in case.get("mid", [])]
+    dom = ift.DomainTuple.make([h1] + mid + [h2])
+    sp2 = len(mid) + 1
+    pdom = ift.DomainTuple.make([p1] + mid + [p2])
+    roots = rng.integers(0, 5, size=pdom.shape).astype(np.float64)
+    d1 = ift.PowerDistributor(ift.DomainTuple.make([h1] + mid + [p2]), p1, 0)
+    d2 = ift.PowerDistributor(dom, p2, sp2)
+    sgn = rng.choice([-1.0, 1.0], size=dom.shape)
+    f = d2(d1(ift.makeField(pdom, roots))).asnumpy() * sgn
+    sig = dict(what="analyze-two-spaces")
+    try:
+        spaces = None if not mid else (0, sp2)
+        got = ift.power_analyze(ift.makeField(dom, f), spaces=spaces).asnumpy()
+    except Exception as e:
+        return (f"power_analyze over two harmonic sub-spaces raised {type(e).__name__}: {str(e)[:80]}", dict(sig, error=type(e).__name__))
+    if got.shape != roots.shape or not np.allclose(got, roots ** 2, rtol=1e-12, atol=1e-12):
+        return ("power_analyze over two harmonic sub-spaces does not return s although |f|^2 = D_1 D_2 s", sig)
     return None
 
 
@@ -341,6 +372,23 @@ def run(ctx):
                      dict(what="raised", error=type(e).__name__))
             if r:
                 ctx.counterexample(dict(c, oseed=0, aspect=aspect), *r)
+    # several harmonic sub-spaces analysed together (oracle only; the model statement is fibre-wise: analyze_subspace)
+    for _ in range(ctx.n(10, 100)):
+        c = gen_case(rng)
+        c2 = gen_case(rng)
+        c = dict(partner=c["partner"], partner2=c2["partner"], binbounds=None, mid=[2] if rng.random() < 0.4 else [],
+                 aspect="two-spaces", oseed=rng.randrange(1 << 30))
+        if int(np.prod(build_partner(c["partner"]).shape)) * int(np.prod(build_partner(c["partner2"]).shape)) > 1500:
+            continue
+        ctx.case({k: v for k, v in c.items() if k != "oseed"}, True)
+        ctx.stat("two-spaces")
+        try:
+            r = oracle(c)
+        except Exception as e:
+            r = (f"the real code raised {type(e).__name__} on a valid two-space configuration: {str(e)[:100]}",
+                 dict(what="raised", error=type(e).__name__))
+        if r:
+            ctx.counterexample(c, *r)
     outs = ctx.model(DRIVER, reqs)
     for post, m in zip(posts, outs):
         post(m)
